@@ -21,57 +21,32 @@ NOT_APPLICABLE = {}
 CHECKS = {}
 
 CHECKS["C12"] = {
-    "technique": "lock typestate on exceptional CFG + dominance + call graph",
+    "technique": 'effect-log abstract interpretation (lock typestate read off ordered call logs) + alias analysis',
     "text": (
-        "Static lock-discipline proof sketch for ThreadsafeForwardingResult: on the exceptional CFG of every "
-        "method the semaphore is released exactly once on all paths (typestate Unheld/Held), every access to the "
-        "shared target (including bound methods invoked by the helper) happens while Held, nothing reachable "
-        "while Held re-acquires, the held block has the documented order (start time, startTest, end time, "
-        "global then test tags, outcome, stopTest in finally) and the forwarder shares no other mutable state. "
-        "That makes the schedule irrelevant, which is the right level for a property quantified over all "
-        "interleavings that a test can only sample."
+        "Lock discipline of ThreadsafeForwardingResult decided on abstract runs of every public method against a symbolic semaphore and a target whose every call may raise (non-blocking acquire may fail): the semaphore is released exactly once on every path, every use of the shared target (calls and attribute reads) happens while it is held, nothing re-acquires while held, the per-test block is start time, startTest, end time, run-level then test tags, outcome, stopTest -- also when the outcome raises -- with the test's arguments passed on and the buffers reset; the forwarder shares no other mutable state. That makes the schedule irrelevant, the right level for a property quantified over all interleavings that a test can only sample. Decided by abstract interpretation of the current source (effect logs over symbolic objects, all paths incl. exceptional ones, environment given by stated oracles); testtools is never imported or run."
     ),
     "note": (
-        "Decides the discipline, not schedules: contiguity/once-only/no-deadlock follow for every interleaving "
-        "because no target access exists outside the lock. Assumes threading.Semaphore(1) semantics and that the "
-        "target is reached only through the attribute assigned from the 'target' parameter." + TRUSTED
+        "Decides the discipline, not schedules: contiguity / once-only / no-deadlock follow for every interleaving because no target access exists outside the lock. Assumes threading.Semaphore(1) semantics and that the target is reached only through the attribute assigned from the 'target' parameter." + TRUSTED
     ),
 }
 
 CHECKS["C15"] = {
-    "technique": "pairing/dominance rules on exceptional CFG (finally cloned per exit)",
+    "technique": 'abstract interpretation of Spinner.run against a modelled reactor replaying scripts of reactor events (+ Deferred chains, DelayedCall typestate)',
     "text": (
-        "Static pairing and ordering rules for Spinner.run/not_reentrant/_clean/_get_result: reactor.stop and the "
-        "signal handlers are restored on every path (normal and exceptional) after they were replaced/saved, the "
-        "result is fetched under a finally that cleans the reactor and records all junk, the stale-junk refusal "
-        "dominates every mutation, the re-entrancy flag is set after its test and cleared on all paths, the result "
-        "is a strict three-way (failure raise / success return / NoResultError), result fields are reset per run, and -- on a DelayedCall typestate (pending/called/cancelled; cancel() "
-        "raises unless pending) -- the result callbacks cancel a pending timeout and make _get_result return / raise "
-        "their argument, while after the timeout has fired a late result can no longer replace the TimeoutError. These are the code-shape guarantees "
-        "behind the restoration clauses, which hold for all crash points by construction."
+        "Spinner.run on a spinner used before, for every kind of user function (returns, raises, returns a fired / failed / pending Deferred) and every script of reactor events (Deferred fires or fails, timeout call runs, a signal handler calls reactor.stop, pairs of them in one iteration in both orders, reactor.run raising): returns the function's value / raises its failure / TimeoutError(function, timeout) / NoResultError; function called once with its arguments; the reactor never spins for ever; a late result does not replace the TimeoutError, an early one cancels the timeout; results of a previous run never show; reactor.stop is the crash substitute while spinning and the original afterwards; every available preserved signal saved before and re-installed after on every path; leftovers cancelled / removed and remembered as junk; stale junk refused before anything is touched. not_reentrant over the one boolean it guards (marked while running, unmarked on return and on any exception, nested entry refused without clearing the mark). Decided by abstract interpretation of the current source (effect logs over symbolic objects, all paths incl. exceptional ones, environment given by stated oracles); testtools is never imported or run."
     ),
     "note": (
-        "Not decided (runtime quantities): timing of the Deferred relative to the timeout, what the reactor really "
-        "holds, identity of real signal handlers. The decided clauses are necessary conditions of the property." + TRUSTED
+        "Not decided: wall-clock timing, what a real reactor holds, identity of real signal handlers. The scripts cover the orders of 'fires', 'times out' and 'stop requested' that the property quantifies over, at the granularity of reactor iterations." + TRUSTED
     ),
 }
 
 CHECKS["C13"] = {
-    "technique": "must-pass-through / dominance on exceptional CFG + structural pipeline rules",
+    "technique": 'effect-log abstract interpretation against schedules of worker events and an interrupt at every external call',
     "text": (
-        "Static join/signal/abort discipline for ConcurrentTestSuite and ConcurrentStreamTestSuite: the worker "
-        "wrapper signals completion on every path out of the sub-suite's run() and turns a crash into a "
-        "broken-runner ErrorHolder on the same result; the coordinating run() creates one thread per sub-suite, "
-        "registers it before start(), waits while the bookkeeping is non-empty, forgets a worker only together "
-        "with join(), keeps thread creation and waiting under one catch-all handler that stops every remaining "
-        "worker and re-raises, and builds the documented per-worker pipeline (shared Semaphore(1) / "
-        "ExtendedToStream(Timestamping(StreamToQueue)); status events forwarded in dequeue order, forget only on "
-        "stopTestRun, unknown events rejected). The guarantee is made by code shape, so it holds for every "
-        "schedule and fault point rather than for the ones a test happens to sample."
+        "Worker wrapper: for a sub-suite that returns, raises an Exception or is interrupted (and a holder whose run() may raise) -- run() called once with the per-worker result, exactly one completion signal on every path and nothing after it, a crash contained and reported as ErrorHolder('broken-runner...', error=sys.exc_info()) against the same result. Coordinator: two sub-suites, threads / queue / semaphore / per-worker results as numbered symbolic objects, the queue replaying every schedule of a table of worker-event orders and raising Deadlock when run() waits for an event nobody sends -- one started Thread per sub-suite running the wrapper, return only after every thread was joined and every event consumed, registration before start, an interrupt at each external call propagates after stop() on every worker not yet finished, one shared Semaphore(1)/queue, per-worker pipelines, status events forwarded unchanged in order, a worker forgotten only on its own stopTestRun, unknown events rejected. Decided by abstract interpretation of the current source (effect logs over symbolic objects, all paths incl. exceptional ones, environment given by stated oracles); testtools is never imported or run."
     ),
     "note": (
-        "Interleavings are not explored and liveness of user run() is not decided; per-event atomicity of the "
-        "shared result is C12. Assumes Thread.join/Queue semantics." + TRUSTED
+        'Real thread interleavings and liveness of user code are not decided; the rules establish the join/signal/abort discipline that makes them irrelevant, for two workers and the listed event orders. Assumes Thread.join and an unbounded thread-safe Queue.' + TRUSTED
     ),
 }
 
@@ -270,20 +245,13 @@ CHECKS["C06"] = {
 }
 
 CHECKS["C17"] = {
-    "technique": "typestate over all method histories (abstract interpretation of each method, closure of the finite abstract state space) + alias analysis",
+    "technique": 'typestate over all method histories (context followed by value through aliases) + effect-log runs + symbolic set algebra',
     "text": (
-        "For each class that owns a TagContext chain, every protocol method is interpreted abstractly over the value of "
-        "self._tags (context depth and identity of the run-level context, None, unset) and ALL well-formed method "
-        "histories from the post-constructor state are explored to closure, including the start-less stopTest of "
-        "unittest 3.12.1: no transition dereferences None, stopTest never pops or replaces the run-level context, "
-        "startTest/stopTest are inverse, only startTestRun replaces the run level; the four implementations have "
-        "identical transition tables. TagContext copies rather than aliases its sets; ThreadsafeForwardingResult "
-        "routes tags to the per-test buffer iff a test is open; the stream decorator reports current_tags with the "
-        "final status; PlaceHolder applies and removes the same tags around its bracket. Exploring all histories is "
-        "exactly what the eight fixed three-step scenarios of TagsContract cannot do (found: start-less stopTest popped "
-        "the run-level context in four classes, fixed)."
+        "For every class that owns a TagContext chain the methods startTestRun / startTest / stopTest / tags / current_tags are interpreted over the abstract context (depth 0 / 1 / 2+, None, unset; followed through self._tags, locals and .parent); all histories are explored to closure: no None/unset dereference, stopTest never pops the run level (also the start-less stopTest unittest emits), push/pop inverse, siblings agree. TagContext on symbolic set expressions: a child starts from a fresh copy of the parent's tags, get_current_tags hands out a fresh set, change_tags is (own | new) - gone on its own set. ThreadsafeForwardingResult: tags() changes the per-test buffer iff a test is open, always the forwarder's own context, never the target; the block replays run-level then test tags, each iff non-empty. Stream side: the record keeps the latest tags an event carried; the final status carries current_tags; PlaceHolder adds and removes the same tags around its bracket. Decided by abstract interpretation of the current source (effect logs over symbolic objects, all paths incl. exceptional ones, environment given by stated oracles); testtools is never imported or run."
     ),
-    "note": "Tag sets as concrete values along long histories are not decided beyond add/remove symmetry." + TRUSTED,
+    "note": (
+        'Decides scoping (which context/buffer a change lands in), not the set values a particular program computes.' + TRUSTED
+    ),
 }
 
 CHECKS["C09"] = {
@@ -320,78 +288,41 @@ CHECKS["C10"] = {
 }
 
 CHECKS["C16"] = {
-    "technique": "obligation-tracking abstract interpretation of the read loop + structural decoder/eagerness/equality rules",
+    "technique": 'obligation-tracking abstract interpretation of the read loop + effect-log runs on modelled streams / decoders + closures applied after construction',
     "text": (
-        "content._iter_chunks is interpreted abstractly with every value returned by stream.read() an obligation: it is "
-        "yielded exactly once before being overwritten (so order is kept) or it is falsy and ends the loop; only "
-        "truthy chunks are yielded; every read asks for chunk_size; the seek happens iff an offset was given, before "
-        "the first read, with both arguments -- closed by the loop fixed point, so it holds for every file length "
-        "(the multiple-of-chunk-size off-by-one the tests never sample). Content._iter_text uses one incremental "
-        "decoder created before the loop, one decode per chunk, no per-chunk bytes.decode, and a final=True flush "
-        "whose non-empty result is yielded; default charset ISO-8859-1. content_from_reader reads now iff buffer_now; "
-        "file/stream helpers touch their source only inside the nested reader and pass chunk_size/seek through; "
-        "text_content encodes with the charset it declares. Content equality compares type and joined bytes of both "
-        "sides; ContentType compares and renders every field; every object the callback of a gathered copy can hand "
-        "out was materialised when the copy was made (never the source's own buffer, never a lazy iterator)."
+        "_iter_chunks: every value read is yielded once in order or is falsy and ends the loop; on a modelled stream every read asks for chunk_size, the chunks come out in order, seek(offset, whence) first iff an offset is given (0 counts). _iter_text: one incremental decoder for the declared charset (ISO-8859-1 default), every chunk decoded in order, exactly one final flush whose non-empty result is yielded; the concatenated text is the decoded chunks. content_from_reader / _file / _stream: the byte source handed to Content is applied *after* the constructor returned -- nothing is touched before unless buffer_now; buffered content was read exactly once, chunk for chunk, can be read again and is not a one-shot iterator; chunk size and seek arguments reach the stream; the file is opened 'rb' under with. text_content / json_content bytes decode back in the declared charset. Content.__eq__ is equality of type and concatenated bytes however chunked; ContentType renders every parameter sorted. The copies made when details are gathered are materialised at copy time. Decided by abstract interpretation of the current source (effect logs over symbolic objects, all paths incl. exceptional ones, environment given by stated oracles); testtools is never imported or run."
     ),
     "note": (
-        "Not decided (runtime values): round trips over the Unicode range, cut positions inside multi-byte "
-        "sequences, and MIME render/re-parse. Assumes stream.read and codecs incremental decoder contracts." + TRUSTED
+        'Round trips over the full Unicode range, all cut positions and MIME re-parsing are value properties and are not decided; the codecs incremental-decoder contract is assumed.' + TRUSTED
     ),
 }
 
 CHECKS["C19"] = {
-    "technique": "CFG dominance + nullness abstract interpretation of the sort keys + unused-result rule + structural dispatch/obligation rules",
+    "technique": 'inductive step on a symbolic tree node (abstract interpretation with recursive calls answered symbolically) + effect-log scenario runs + unused-result rule',
     "text": (
-        "Static rules for sorted_tests, _flatten_tests, filter_by_ids, iterate_tests and testtools.run: the "
-        "duplicate-id ValueError dominates flattening and sorting and counts every leaf id; a nullness abstract "
-        "interpretation of _flatten_tests shows whether every produced sort key is a test id (it is not: an empty "
-        "custom suite gets None -- recorded known finding); the results of filter_by_ids / sorted_tests are used at "
-        "every call site; filter_by_ids dispatches custom, id, TestSuite, else unchanged and in the suite arm filters "
-        "every child once, appending in order into the list that replaces _tests; iterate_tests recurses into every "
-        "element in order; --load-list ids are stripped/decoded per line and applied after argument parsing and "
-        "before running or listing; the listing paths print every id. These structural facts hold for all suite "
-        "trees."
+        "iterate_tests / filter_by_ids / _flatten_tests are interpreted for every kind of node (test case, case with own filter_by_ids, plain TestSuite, custom suite with / without sort_tests or filter_by_ids, empty suites, a foreign object) with their recursive calls answered symbolically: a leaf is yielded itself and the leaves of every child once in order; filtering delegates to an own filter_by_ids, keeps a case iff its id is listed (else an empty TestSuite), filters every child once and replaces the suite's tests by the results in order; flattening gives (id, case), concatenates children of a plain suite, keeps a custom suite whole under its first test's id and calls sort_tests once. sorted_tests rejects duplicate ids before anything is flattened and returns the flattened tests ordered by key. TestProgram.__init__ for --list / --load-list on and off and runners with and without list(): the ids of every line (stripped, decoded) reach filter_by_ids whose result replaces self.test before anything runs or lists; listing prints every id. Results of filter_by_ids / sorted_tests are used at every call site. Decided by abstract interpretation of the current source (effect logs over symbolic objects, all paths incl. exceptional ones, environment given by stated oracles); testtools is never imported or run."
     ),
-    "note": "That flattening/sorting yields the right order for all tree shapes is a value property and is not decided." + TRUSTED,
+    "note": (
+        'Whole-tree permutation properties follow from the per-node steps by induction and are not re-derived on concrete trees. Known finding: an empty custom suite gets the sort key None.' + TRUSTED
+    ),
 }
 
 CHECKS["C20"] = {
-    "technique": "return-kind inference on callbacks + emptiness abstract interpretation of the three-way dispatch + who-may-call rule",
+    "technique": 'abstract interpretation with Deferred chains as values, per Deferred state (unfired / fired / failed / paused) and per inner-matcher answer + who-may-call rule',
     "text": (
-        "Static rules for twistedsupport/_matchers.py and _deferred.py: every callback the matchers attach to the "
-        "matchee returns its first parameter on all paths (results stay intact for later callbacks); nothing calls "
-        "callback/errback/cancel on the matchee (count 0, with an embedded positive example that must match); an "
-        "abstract interpretation of on_deferred_result under each state a Deferred can be in (not fired; fired but "
-        "chain paused or waiting on a nested Deferred; result available; failure available -- with Deferred.called / "
-        ".result modelled as Twisted documents them) shows exactly the right one of the three callbacks is invoked and "
-        "its value returned, and the impossible both-captured state raises; the per-state "
-        "verdict tables of _NoResult/_Succeeded/_Failed are the documented ones (success delegates on the value, "
-        "failure on the Failure), so with Always() exactly one of the three matchers matches in each state; both "
-        "failure arms add a swallowing errback; SynchronousDeferredRunTest._run_user and extract_result have the "
-        "documented three-way shape."
+        "on_deferred_result calls exactly the callback for the Deferred's state with the Deferred and its result and returns its answer; afterwards the Deferred is in the state it was in (a value it is fired with later reaches later callbacks unchanged through the capture callbacks). has_no_result / succeeded(m) / failed(m): None only for the matching state and m's own answer (m asked once with the value resp. Failure), a Mismatch otherwise -- so with Always() exactly one of the three matches; a successful result and an unfired Deferred are left intact; a failure inspected by succeeded() or failed() is consumed. extract_result returns the value / raises the failure's exception / raises DeferredNotFired (also for a chain paused on a nested Deferred). SynchronousDeferredRunTest._run_user per kind of user function (returns, raises, fired / failed / pending Deferred). No call of callback / errback / cancel on a Deferred in the matcher modules (expected count 0, positive example embedded). Decided by abstract interpretation of the current source (effect logs over symbolic objects, all paths incl. exceptional ones, environment given by stated oracles); testtools is never imported or run."
     ),
-    "note": "Twisted's unhandled-error logging at garbage collection is runtime behaviour and is not decided." + TRUSTED,
+    "note": (
+        'Values inside results are symbolic; the inner matcher is an oracle with both answers.' + TRUSTED
+    ),
 }
 
 CHECKS["C14"] = {
-    "technique": "truth/emptiness abstract interpretation of _run_core over all source combinations + catch-all sibling agreement + structural chain/pairing rules",
+    "technique": "effect-log abstract interpretation + Deferred chains as abstract values (Twisted's chain semantics)",
     "text": (
-        "AsynchronousDeferredRunTest._run_core is interpreted abstractly with _blocking_run_deferred inlined and the spinner "
-        "returning or raising TimeoutError / NoResultError, over all 24 combinations of its problem sources (run ok / "
-        "failed / timed out / interrupted; flushed logged errors; unhandled Deferreds; reactor junk): addSuccess is "
-        "delivered at most once and exactly when everything is clean, every dirty source records an exception so that "
-        "C01's dispatch reports one outcome, an interrupted run asks the result to stop, and on every path the logged "
-        "errors are flushed from the process-wide observer and the junk is collected (nothing leaks into the next test). Every place where user code or a user Deferred's failure surfaces in "
-        "the Twisted runners is under a catch-all, in agreement with RunTest._run_user (found: async cleanups awaited "
-        "under `except Exception`, fixed). _run_deferred chains setUp, test, tearDown (on both outcomes), cleanups (on "
-        "both outcomes) and the forced failure, marking every failed stage; log observers are restored by cleanups "
-        "registered in the same iteration and the reactor is spun inside both fixtures; spinner TimeoutError / "
-        "NoResultError are recorded and the interrupt arm stops the result."
+        'AsynchronousDeferredRunTest._run_core for the 24 combinations of its problem sources (blocking run ok / failed / timed out / interrupted x logged errors x unhandled Deferreds x junk) against symbolic fixtures, spinner and result: addSuccess(case, details=case.getDetails()) exactly once iff all clean; every logged error / unhandled failure / junk / timeout / interrupt recorded through the right recorder exactly once (result.stop() on interrupt); every source collected once; the reactor spun inside both fixtures which are left on every path. _run_deferred, _run_user and _run_cleanups with Deferreds as abstract values, one run per outcome of every stage: setUp, then test and tearDown iff setUp succeeded, then cleanups, then the forced failure; verdict True iff nothing failed; every failure recorded once -- also when recording itself raises; cleanups LIFO under any exception with tracebacks reported and the last exception returned; log-observer fixtures restore what they changed, also after a partial failure. Decided by abstract interpretation of the current source (effect logs over symbolic objects, all paths incl. exceptional ones, environment given by stated oracles); testtools is never imported or run.'
     ),
     "note": (
-        "Not applicable to this family (declined): that the next stage starts only after a Deferred fired, timeouts "
-        "relative to delays, interrupt instants and actual reactor cleanliness -- runtime behaviour of Twisted objects. "
-        "The decided clauses are necessary conditions of the property." + TRUSTED
+        "Timing, real reactor behaviour and Deferred firing order are not decided (a chain's final result does not depend on when its Deferreds fire, so already-fired Deferreds are used). Found and fixed f5a74f9 (a failure raised while recording a failure was swallowed)." + TRUSTED
     ),
 }
